@@ -421,12 +421,17 @@ class ConfigLoader(BaseLoader):
                 "cannot check a configuration an abstract type")
         BaseLoader.__init__(self)
         self.schema = schema
+        self._base_schema = schema
         self._private_schema = False
         # URLs of the resources currently being parsed (the top resource
         # and the chain of %include-s below it)
         self._open_urls = []
 
     def loadResource(self, resource):
+        # every load starts from the schema the loader was created with:
+        # the private copy made for a %import serves that load only
+        self.schema = self._base_schema
+        self._private_schema = False
         sm = self.createSchemaMatcher()
         self._open_urls.append(resource.url)
         try:
